@@ -2,6 +2,8 @@
 package nodemap
 
 import (
+	"math"
+
 	"capnproto.org/go/capnp/v3"
 	"capnproto.org/go/capnp/v3/internal/schema"
 	"capnproto.org/go/capnp/v3/schemas"
@@ -39,6 +41,9 @@ func (m *Map) Find(id uint64) (schema.Node, error) {
 	if err != nil {
 		return schema.Node{}, err
 	}
+	// The nodes are cached and re-read for every lookup: the registry's
+	// data is trusted, so do not let its traversal budget run out.
+	msg.TraverseLimit = math.MaxUint64
 	req, err := schema.ReadRootCodeGeneratorRequest(msg)
 	if err != nil {
 		return schema.Node{}, err
